@@ -5,6 +5,9 @@ import TabulaModel.Model.MarkdownDoc
 Line protocol of C15 (see harness/c15):
 * `c15.mdtab <w> <rows>`      rows `;`-separated, cells `,`-separated hex → hex of `render w t`
 * `c15.mdspan <w> <rows>`     cells `hex:span:cont` → hex of `renderSpan w t` (docx, odt)
+* `c15.mdhtml <rows>`         htmldoc cells `hex.colspan.rowspan`, `_` = row without cells → hex of
+                              `renderHtmlSpan t`;  `c15.htmlgrid <rows>` → `<width> <grid texts>`
+                              (`htmlWidth`, `htmlGridTexts`: the table `Document()` builds)
 * `c15.mdrow <w> <cells>`     → hex of `renderRow w cells`
 * `c15.gfm <hex doc>`         → `none` | `ok <rows>` (`gfmTable`)
 * `c15.splitrow <hex line>`   → `<cells> <count>` (`gfmSplitRow`)
@@ -26,7 +29,7 @@ Document level (Model/MarkdownDoc.lean); every field is non-empty, `-` = empty s
 * `c15.odtmd  <entry> <opts> <ext> <meta> <hdrs;ftrs> <ord> <nParas> <elems>` → hex; ord =
   `<style>:<level>:<0|1>,…`; paragraphs carry the style name where docx has the numId
 * `c15.htmlmd <entry> <opts> <ext> <hmeta> <elems>` → hex; hmeta = `<title>:<author|~>:<desc|~>:<kw|~>`;
-  elems: `h=<level>:<text>`, `p=<text>`, `l=<text>.<level>.<o|u>,…`, `t=<rows>|~|_`, `c=<text>`, `q=<text>`
+  elems: `h=<level>:<text>`, `p=<text>`, `l=<text>.<level>.<o|u>,…`, `t=<rows of hex.colspan.rowspan>|~|-`, `c=<text>`, `q=<text>`
 * `c15.htmlhist <ext> <hmeta> <mode>=<elems>#… <calls>` → hex,…; calls `,`-separated: `md`, `mdo:<mode>`,
   `rag:<mode>:<opts with ; for :>`
 * `c15.pptxmd <entry> <opts> <ext> <meta> <sel> <slides>` → hex; slides `|`-separated
@@ -73,6 +76,18 @@ def parseSpanTable (s : String) : Option (List (List SCell)) :=
 
 def encTable (t : List (List Str)) : String := ";".intercalate (t.map hexList)
 
+/-- one htmldoc cell `<hex>.<colspan>.<rowspan>` -/
+def parseHCell (s : String) : Option HCell :=
+  match s.splitOn "." with
+  | [h, cs, rs] => do pure ⟨← unhexS h, ← cs.toInt?, ← rs.toInt?⟩
+  | _ => none
+
+/-- rows of htmldoc cells: rows `;`-separated, cells `,`-separated, a row without cells is `_`,
+no rows at all `-` -/
+def parseHTable (s : String) : Option (List (List HCell)) :=
+  if s == "-" then some [] else
+    (s.splitOn ";").mapM fun row => if row == "_" then some [] else (row.splitOn ",").mapM parseHCell
+
 def handleBase (op : String) (args : List String) : String :=
   match op, args with
   | "c15.mdtab", [w, rows] =>
@@ -81,9 +96,16 @@ def handleBase (op : String) (args : List String) : String :=
     | _, _ => "bad-op"
   | "c15.mdspan", [w, rows] =>
     match writerOf w, parseSpanTable rows with
-    | some .html, some t => hexS (renderHtmlSpan t)
     | some w, some t => hexS (renderSpan w t)
     | _, _ => "bad-op"
+  | "c15.mdhtml", [rows] =>
+    match parseHTable rows with
+    | some t => hexS (renderHtmlSpan t)
+    | none => "bad-op"
+  | "c15.htmlgrid", [rows] =>
+    match parseHTable rows with
+    | some t => s!"{htmlWidth t} {encTable (htmlGridTexts t)}"
+    | none => "bad-op"
   | "c15.mdrow", [w, cells] =>
     match writerOf w, parseRow cells with
     | some w, some r => hexS (renderRow w r)
@@ -246,7 +268,7 @@ def parseRows (s : String) : Option (List (List Str)) :=
   if s == "-" then some [] else
     (s.splitOn ";").mapM fun row => if row == "_" then some [] else parseRow row
 
-def parseHElem (s : String) : Option HElem :=
+def parseHSrc (s : String) : Option HSrc :=
   let body := (s.drop 2).toString
   if s.startsWith "h=" then
     match body.splitOn ":" with
@@ -255,10 +277,13 @@ def parseHElem (s : String) : Option HElem :=
   else if s.startsWith "p=" then (unhexS body).map .para
   else if s.startsWith "l=" then (listOf "," parseHItem body).map .list
   else if s.startsWith "t=" then
-    if body == "~" then some (.table none) else (parseRows body).map fun r => .table (some r)
+    if body == "~" then some (.table none) else (parseHTable body).map fun r => .table (some r)
   else if s.startsWith "c=" then (unhexS body).map .code
   else if s.startsWith "q=" then (unhexS body).map .quote
   else none
+
+/-- an element of the reader as the writer loop sees it (`HSrc.view`: tables as their grid) -/
+def parseHElem (s : String) : Option HElem := (parseHSrc s).map HSrc.view
 
 def parsePPara (s : String) : Option PPara :=
   match s.splitOn "." with
